@@ -21,6 +21,12 @@ type mintFam struct {
 	rng     *rand.Rand
 	halted  bool
 	stipend *chain.Acct
+	// the stipend address is a governance parameter too: two accounts, `cur` is the configured one. The projected "stipend"
+	// balance follows the configured account continuously (offset adjusted at every switch), so a payment to an account that is
+	// no longer configured shows up under "other"
+	stipend2 *chain.Acct
+	cur      int
+	off      int64
 }
 
 func init() { families["mint"] = func() Family { return &mintFam{} } }
@@ -34,6 +40,8 @@ func (f *mintFam) newChain(p M) {
 		f.c.Close()
 	}
 	f.stipend = chain.NewAcct("stipend")
+	f.stipend2 = chain.NewAcct("stipend2")
+	f.cur, f.off = 1, 0
 	f.c = chain.NewClosed(func(gs app.GenesisState, a *app.JackalApp) {
 		var mg mtypes.GenesisState
 		a.AppCodec().MustUnmarshalJSON(gs["jklmint"], &mg)
@@ -49,7 +57,14 @@ func (f *mintFam) setPar(mp *mtypes.Params, p M) {
 	mp.StakerRatio = geti(p, "sr")
 	mp.DevGrantsRatio = geti(p, "dr")
 	mp.StorageProviderRatio = geti(p, "pr")
-	mp.StorageStipendAddress = f.stipend.S()
+	mp.StorageStipendAddress = f.stipendAcct().S()
+}
+
+func (f *mintFam) stipendAcct() *chain.Acct {
+	if f.cur == 2 {
+		return f.stipend2
+	}
+	return f.stipend
 }
 
 func (f *mintFam) Reset() M {
@@ -71,9 +86,21 @@ func (f *mintFam) Apply(st M) M {
 			return nil
 		}
 		mp := f.c.App.MintKeeper.GetParams(f.c.Ctx)
+		stN := int(geti0(st, "st", int64(f.cur)))
+		if stN != 1 && stN != 2 {
+			stN = f.cur
+		}
+		if stN != f.cur { // keep the projected balance continuous across the switch
+			bal := func(a *chain.Acct) int64 {
+				return f.c.App.BankKeeper.GetBalance(f.c.Ctx, a.Addr, "ujkl").Amount.Int64()
+			}
+			old := f.stipendAcct()
+			f.cur = stN
+			f.off += bal(old) - bal(f.stipendAcct())
+		}
 		f.setPar(&mp, getm(st, "p"))
 		f.c.App.MintKeeper.SetParams(f.c.Ctx, mp)
-		return M{"a": "setparams", "p": st["p"], "ok": true}
+		return M{"a": "setparams", "p": st["p"], "st": int64(f.cur), "ok": true}
 	case "block":
 		if f.halted {
 			return nil
@@ -105,7 +132,7 @@ func (f *mintFam) Project() M {
 	dev, _ := mkeeper.GetDevGrantsAccount()
 	get := func(a sdk.AccAddress) int64 { return f.c.App.BankKeeper.GetBalance(ctx, a, "ujkl").Amount.Int64() }
 	stakers := get(authtypes.NewModuleAddress("fee_collector")) + get(authtypes.NewModuleAddress("distribution"))
-	b := M{"stakers": stakers, "dev": get(dev), "stipend": get(f.stipend.Addr), "m:jklmint": get(authtypes.NewModuleAddress("jklmint"))}
+	b := M{"stakers": stakers, "dev": get(dev), "stipend": get(f.stipendAcct().Addr) + f.off, "m:jklmint": get(authtypes.NewModuleAddress("jklmint"))}
 	supply := f.c.App.BankKeeper.GetSupply(ctx, "ujkl").Amount.Int64()
 	b["other"] = supply - stakers - b["dev"].(int64) - b["stipend"].(int64) - b["m:jklmint"].(int64)
 	h := f.c.H
@@ -138,7 +165,7 @@ func (f *mintFam) Random(rng *rand.Rand) M {
 		p := par()
 		cur := f.c.App.MintKeeper.GetParams(f.c.Ctx)
 		p["tpb"] = cur.TokensPerBlock
-		return M{"a": "setparams", "p": p}
+		return M{"a": "setparams", "p": p, "st": int64(1 + rng.Intn(2))}
 	}
 	return M{"a": "block"}
 }
